@@ -5,7 +5,7 @@ index-form consequences of the invariant that the property theorems are stated w
 -/
 namespace Pyr.Security
 
-theorem mainPhase_inv {ch : List Layer} (hch : Layer.secured ∈ ch) (views : List DView) (w : World) (q : Req) :
+theorem mainPhase_inv {ch : List Layer} (hch : securedFirst ch = true) (views : List DView) (w : World) (q : Req) :
     Inv views w.pol none (mainPhase ch views w q) := by
   have h := callView_inv hch (views := views) (w := w) (wrapIfaces := q.wrapIfaces) (truePreds := q.preds)
     (fuelFor views) false q.ifaces q.sro q.name q.ctx
@@ -15,7 +15,7 @@ theorem mainPhase_inv {ch : List Layer} (hch : Layer.secured ∈ ch) (views : Li
   · next hn => exact Inv.outcome (o := Outcome.mismatch) (by rw [← hn]; exact h) (by intro h; cases h)
   · exact h
 
-theorem excPhase_inv {ch : List Layer} (hch : Layer.secured ∈ ch) (views : List DView) (w : World) (q : Req) (k : Nat) :
+theorem excPhase_inv {ch : List Layer} (hch : securedFirst ch = true) (views : List DView) (w : World) (q : Req) (k : Nat) :
     Inv views w.pol none (excPhase ch views w q k) := by
   have h := callView_inv hch (views := views) (w := w) (wrapIfaces := q.wrapIfaces) (truePreds := q.preds)
     (fuelFor views) true q.excIfaces (w.excSro k) 0 (excCtx k)
@@ -32,7 +32,7 @@ theorem excPhase_inv {ch : List Layer} (hch : Layer.secured ∈ ch) (views : Lis
     · exact h
   · exact h
 
-theorem render_inv {ch : List Layer} (hch : Layer.secured ∈ ch) (views : List DView) (w : World) (q : Req) :
+theorem render_inv {ch : List Layer} (hch : securedFirst ch = true) (views : List DView) (w : World) (q : Req) :
     Inv views w.pol none (render ch views w q true) := by
   have h := callView_inv hch (views := views) (w := w) (wrapIfaces := q.wrapIfaces) (truePreds := q.preds)
     (fuelFor views) false q.ifaces q.sro q.name q.ctx
@@ -43,28 +43,55 @@ theorem render_inv {ch : List Layer} (hch : Layer.secured ∈ ch) (views : List 
 
 /-! ### index forms -/
 
-/-- a guarded body event stands directly after its granting `permits` event -/
-theorem okFrom_body {c p tag : Nat} {exc : Bool} : ∀ (l : List Event) (prev : Option Event) (i : Nat),
-    okFrom prev l = true → l[i]? = some (.body tag exc c (some p)) →
-    (i = 0 ∧ prev = some (.permits c p true)) ∨ (∃ j, j + 1 = i ∧ l[j]? = some (.permits c p true)) := by
+def Event.isDeco : Event → Bool
+  | .deco .. => true
+  | _ => false
+
+/-- every event passes `okStep` against the event before it -/
+theorem okFrom_step : ∀ (l : List Event) (prev : Option Event) (i : Nat) (e : Event),
+    okFrom prev l = true → l[i]? = some e →
+    okStep (match i with | 0 => prev | k + 1 => l[k]?) e = true := by
   intro l
   induction l with
-  | nil => intro prev i _ h; simp at h
-  | cons e es ih =>
-    intro prev i hok hi
+  | nil => intro prev i e _ h; simp at h
+  | cons x xs ih =>
+    intro prev i e hok hi
     simp only [okFrom, Bool.and_eq_true] at hok
     cases i with
     | zero =>
       simp only [List.getElem?_cons_zero, Option.some.injEq] at hi
-      subst hi
-      simp only [okStep, beq_iff_eq] at hok
-      exact Or.inl ⟨rfl, hok.1⟩
+      subst hi; exact hok.1
     | succ i =>
       simp only [List.getElem?_cons_succ] at hi
-      rcases ih (some e) i hok.2 hi with ⟨rfl, he⟩ | ⟨j, hj, hjl⟩
-      · injection he with he
-        exact Or.inr ⟨0, rfl, by simp [he]⟩
-      · exact Or.inr ⟨j + 1, by omega, by simpa using hjl⟩
+      have := ih (some x) i e hok.2 hi
+      cases i with
+      | zero => simpa using this
+      | succ k => simpa using this
+
+/-- a guarded piece of user code of a view — its decorator or its body — stands after the granting `permits` event,
+with nothing but that view's decorator events in between -/
+theorem okFrom_user {c p tag : Nat} (l : List Event) (hok : okFrom none l = true) :
+    ∀ (i : Nat) (e : Event), l[i]? = some e → (e = .deco tag c (some p) ∨ ∃ x, e = .body tag x c (some p)) →
+    ∃ j, j < i ∧ l[j]? = some (.permits c p true) ∧ ∀ k, j < k → k < i → ∀ e', l[k]? = some e' → e'.isDeco = true := by
+  intro i
+  induction i with
+  | zero =>
+    intro e hi he
+    have := okFrom_step l none 0 e hok hi
+    rcases he with rfl | ⟨x, rfl⟩ <;> simp [okStep] at this
+  | succ i ih =>
+    intro e hi he
+    have hs := okFrom_step l none (i + 1) e hok hi
+    have hprev : l[i]? = some (.permits c p true) ∨ l[i]? = some (.deco tag c (some p)) := by
+      rcases he with rfl | ⟨x, rfl⟩ <;> simpa [okStep] using hs
+    rcases hprev with h | h
+    · exact ⟨i, by omega, h, fun k h1 h2 => by omega⟩
+    · obtain ⟨j, hj, hjl, hbetween⟩ := ih _ h (Or.inl rfl)
+      refine ⟨j, by omega, hjl, ?_⟩
+      intro k h1 h2 e' he'
+      by_cases hk : k = i
+      · subst hk; rw [h] at he'; injection he' with he'; subst he'; rfl
+      · exact hbetween k h1 (by omega) e' he'
 
 /-- a refusal is the last event of its run, and the run ends in HTTPForbidden -/
 theorem tight_refusal {o : Outcome} : ∀ (l : List Event) (i : Nat) (e : Event),
@@ -97,6 +124,9 @@ theorem truthful_at {pol : Nat → Nat → Bool} {l : List Event} {j c p : Nat} 
   have := h _ hm
   simpa [truthfulEv] using this
 
+theorem isBody_of_isDeco {e : Event} (h : e.isDeco = true) : e.isBody = false := by
+  cases e <;> simp [Event.isDeco] at h <;> rfl
+
 /-- the mediation statement in index form, for any trace that satisfies the invariant parts -/
 theorem mediated_of_good {views : List DView} {pol : Nat → Nat → Bool} {l : List Event}
     (hg : okFrom none l = true) (ht : truthful pol l = true) (hs : FromViews views l)
@@ -107,14 +137,21 @@ theorem mediated_of_good {views : List DView} {pol : Nat → Nat → Bool} {l : 
   refine ⟨hs tag exc c g (List.mem_of_getElem? hi), ?_⟩
   intro p hp
   subst hp
-  rcases okFrom_body l none i hg hi with ⟨_, h⟩ | ⟨j, hj, hjl⟩
-  · cases h
-  · refine ⟨j, by omega, hjl, (truthful_at ht hjl).symm, ?_⟩
-    intro k h1 h2; omega
+  obtain ⟨j, hj, hjl, hb⟩ := okFrom_user l hg i _ hi (Or.inr ⟨exc, rfl⟩)
+  exact ⟨j, hj, hjl, (truthful_at ht hjl).symm, fun k h1 h2 e he => isBody_of_isDeco (hb k h1 h2 e he)⟩
+
+/-- user decorator code of a guarded view is entered only after the grant -/
+theorem decorator_of_good {pol : Nat → Nat → Bool} {l : List Event}
+    (hg : okFrom none l = true) (ht : truthful pol l = true)
+    (i tag c p : Nat) (hi : l[i]? = some (.deco tag c (some p))) :
+    ∃ j, j < i ∧ l[j]? = some (.permits c p true) ∧ pol c p = true ∧
+      ∀ k, j < k → k < i → ∀ e, l[k]? = some e → e.isBody = false := by
+  obtain ⟨j, hj, hjl, hb⟩ := okFrom_user l hg i _ hi (Or.inl rfl)
+  exact ⟨j, hj, hjl, (truthful_at ht hjl).symm, fun k h1 h2 e he => isBody_of_isDeco (hb k h1 h2 e he)⟩
 
 /-! ### the whole request: main phase, marker, exception phase -/
 
-theorem handle_parts {ch : List Layer} (hch : Layer.secured ∈ ch) (views : List DView) (w : World) (q : Req) :
+theorem handle_parts {ch : List Layer} (hch : securedFirst ch = true) (views : List DView) (w : World) (q : Req) :
     okFrom none (handle ch views w q).1 = true ∧ truthful w.pol (handle ch views w q).1 = true ∧
     FromViews views (handle ch views w q).1 ∧ AskedFor views (handle ch views w q).1 := by
   have hm := mainPhase_inv hch views w q
